@@ -1,4 +1,4 @@
-//@@ unit c09_planner properties=C09 variants=dry_run,nothing_new
+//@@ unit c09_planner properties=C09,C02 variants=dry_run,nothing_new
 #![allow(unused_imports, dead_code, unused_variables, unused_mut)]
 use vstd::prelude::*;
 use vstd::std_specs::iter::IteratorSpec;
